@@ -5,6 +5,7 @@
 //! The container-specific parts (operation generators, reference semantics, event replay)
 //! live in `robs_colls.rs`.
 
+use std::future::Future as _;
 use std::{
     fmt::Debug,
     sync::{Arc, Mutex},
@@ -80,6 +81,10 @@ pub struct GenOpts {
     pub max_len: usize,
 }
 
+/// Something that is merely kept alive.
+pub trait Held {}
+impl<T> Held for T {}
+
 #[allow(async_fn_in_trait)]
 pub trait Coll: Sized + 'static {
     const NAME: &'static str;
@@ -122,6 +127,10 @@ pub trait Coll: Sized + 'static {
     async fn borrow_and_update(m: &mut Self::Mirror) -> Result<View, RecvError>;
     async fn detach(m: Self::Mirror) -> State;
     async fn resubscribe(m: &Self::Mirror, incremental: bool, buffer: usize) -> Option<Result<Self::Sub, RecvError>>;
+    /// Keeps a view of the mirror (its read lock) until the returned guard is dropped.
+    async fn hold(_m: &Self::Mirror) -> Option<Box<dyn Held + '_>> {
+        None
+    }
     fn take_initial(sub: &mut Self::Sub) -> Option<Self::Plain>;
     fn recv(sub: &mut Self::Sub) -> impl Future<Output = Result<Option<Self::Event>, RecvError>> + Send;
     /// Applies one event to a plain std collection, following the documented meaning of the event.
@@ -445,6 +454,8 @@ struct Track {
 /// and its task leaves the event loop after the first element of the initial value.
 /// Known finding: a mirror forwards the (unserializable, `#[serde(skip)]`) InitialComplete event to its
 /// own subscribers; a remote subscriber of a not-yet-complete mirror is disconnected by it.
+/// Known finding: subscribers of a mirror are not told when the mirror loses its upstream.
+pub const MIRROR_UPSTREAM_LOST_SIG: &str = "robs.mirror:subscribers-not-told-when-mirror-loses-upstream";
 pub const RESUB_INITIAL_COMPLETE_SIG: &str = "robs.mirror.resubscribe:initial-complete-event-breaks-remote-subscriber";
 
 pub const INCR_AFTER_DONE_SIG: &str = "robs.mirror:incremental-subscription-after-done-stops-after-first-element";
@@ -763,7 +774,32 @@ impl<C: Coll> Driver<C> {
             spec.hops = 0;
         }
         let m = self.slots.lock().unwrap()[p].mirror.take().unwrap();
-        let res = C::resubscribe(&m, spec.incremental, spec.buffer).await;
+        let res = if kit::coin(1, 2) {
+            // Contended: another reader holds a view of the mirror while the observed collection
+            // changes, and the subscription is requested before that view is released (the mirror
+            // task then holds an event it has received but cannot apply yet).
+            let guard = C::hold(&m).await;
+            if guard.is_some() {
+                kit::probe("resubscribed_while_mirror_view_held");
+            }
+            self.step_op();
+            for _ in 0..kit::draw_range(1, 4) {
+                kit::yield_now().await;
+            }
+            let pause = kit::pick(&[0u64, 0, 2_000, 80_000]);
+            if pause > 0 {
+                tokio::time::sleep(Duration::from_micros(pause)).await;
+            }
+            let mut fut = Box::pin(C::resubscribe(&m, spec.incremental, spec.buffer));
+            let first = std::future::poll_fn(|cx| std::task::Poll::Ready(fut.as_mut().poll(cx))).await;
+            drop(guard);
+            match first {
+                std::task::Poll::Ready(r) => r,
+                std::task::Poll::Pending => fut.await,
+            }
+        } else {
+            C::resubscribe(&m, spec.incremental, spec.buffer).await
+        };
         self.slots.lock().unwrap()[p].mirror = Some(m);
         match res {
             Some(Ok(sub)) => {
@@ -938,6 +974,8 @@ impl<C: Coll> Driver<C> {
                                 let after_done = self.slots.lock().unwrap()[id].after_done;
                                 let sig = if C::HAS_MODES && spec.incremental && after_done && !v.complete && v.done {
                                     Some(INCR_AFTER_DONE_SIG.to_string())
+                                } else if (remote_dead || expect_closed) && spec.parent.is_some() {
+                                    Some(MIRROR_UPSTREAM_LOST_SIG.to_string())
                                 } else {
                                     C::classify(&self.r, &v.state, &want_ref).map(|s| s.to_string())
                                 };
@@ -960,14 +998,14 @@ impl<C: Coll> Driver<C> {
                             }
                             if v.done != self.done_called && !parent_bad {
                                 if expect_closed || remote_dead {
-                                    self.viol("stale-mirror-without-error", None, format!(
+                                    self.viol("stale-mirror-without-error", spec.parent.is_some().then(|| MIRROR_UPSTREAM_LOST_SIG.to_string()), format!(
                                         "{what}: mirror {id} ({spec:?}) returned Ok, is_done={} at quiescence although the collection was dropped before done or the link failed (dropped={}, link_failed={link_failed})",
                                         v.done, self.dropped));
                                 } else {
                                     self.viol("done-flag-wrong", None, format!("{what}: mirror {id} ({spec:?}): is_done={} but done() called={}", v.done, self.done_called));
                                 }
                             } else if !v.done && (expect_closed || remote_dead) && !parent_bad {
-                                self.viol("stale-mirror-without-error", None, format!(
+                                self.viol("stale-mirror-without-error", spec.parent.is_some().then(|| MIRROR_UPSTREAM_LOST_SIG.to_string()), format!(
                                     "{what}: mirror {id} ({spec:?}) still returns Ok (not done) at quiescence although the collection was dropped before done or the link failed (dropped={}, link_failed={link_failed})",
                                     self.dropped));
                             }
@@ -990,7 +1028,11 @@ impl<C: Coll> Driver<C> {
                     }
                     if h.state != want_ref {
                         let kind = if remote_dead || expect_closed { "stale-subscription-without-error" } else { "replayed-events-differ-at-quiescence" };
-                        let sig = C::classify(&self.r, &h.state, &want_ref).map(|s| s.to_string());
+                        let sig = if (remote_dead || expect_closed) && spec.parent.is_some() {
+                            Some(MIRROR_UPSTREAM_LOST_SIG.to_string())
+                        } else {
+                            C::classify(&self.r, &h.state, &want_ref).map(|s| s.to_string())
+                        };
                         self.viol(kind, sig, format!(
                             "{what}: raw subscription {id} ({spec:?}, subscribed at event {sub_index}): events replayed onto the initial value give {} but the collection holds {} ({} events consumed, dropped={}, done={}, link_failed={link_failed})",
                             C::fmt_state(&h.state), C::fmt_state(&want_ref), h.events, self.dropped, self.done_called));
@@ -1001,7 +1043,8 @@ impl<C: Coll> Driver<C> {
                     }
                     if h.done != self.done_called || (!h.done && (expect_closed || remote_dead)) {
                         let kind = if expect_closed || remote_dead { "stale-subscription-without-error" } else { "done-flag-wrong" };
-                        self.viol(kind, None, format!(
+                        let sig = ((expect_closed || remote_dead) && spec.parent.is_some()).then(|| MIRROR_UPSTREAM_LOST_SIG.to_string());
+                        self.viol(kind, sig, format!(
                             "{what}: raw subscription {id} ({spec:?}): Done received={} but done() called={} (dropped={}, link_failed={link_failed}), no error reported",
                             h.done, self.done_called, self.dropped));
                     }
